@@ -42,7 +42,7 @@ func lifeRuns(tier string) []base {
 	modO := AlphaOpts{RespKinds: []string{"ok", "bad", "noout"}, ModOps: []string{"mpause", "mstart", "mkill"},
 		ModUpdates: []CtxUpdate{{Name: "total3", Total: 3}, {Name: "thr1", Threshold: 1}, {Name: "thr2", Threshold: 2}}}
 	d, b, m := bump(tier, 8, 5, 2)
-	return []base{
+	return append([]base{
 		{"life-main", func() *Scenario { return scLife(defaultParams(), []Template{tOne, tRep2, tPoor}, mainO, d, b, m) }},
 		{"life-gap", func() *Scenario {
 			return withFunds(scLife(paramSet("0.1", "0.001"), []Template{tGap, tOne2}, gapO, d+1, b+1, m), 40, 5)
@@ -68,7 +68,7 @@ func lifeRuns(tier string) []base {
 			return withFunds(scLife(paramSet("0.1", "0.001"), []Template{tLong, tOne2}, AlphaOpts{RespKinds: []string{"ok", "bad"}, CtxOps: []string{"pause", "start"},
 				Withdraw: []string{"O2:"}, ParamChanges: []ParamSet{g}}, d, b, m), 30, 5)
 		}},
-	}
+	}, fxBases(tier)...)
 }
 
 func runsOf(bs []base, oracles []Oracle, mon MonFlags, names ...string) []RunSpec {
@@ -539,4 +539,20 @@ var tTight = Template{Name: "tight", Consumer: "C1", Service: "a", Providers: []
 func tightBalanceRun(o []Oracle, d, b, m int) RunSpec {
 	return RunSpec{Name: "provider-above-cap+tight-balance", Sc: withFunds(scPrice(defaultParams(), "p2", "p1", []Template{tTight},
 		AlphaOpts{RespKinds: []string{"ok"}, BindOps: []Action{actUpdate("a", "P2", "O2", 0, "p5", 0)}}, d-1, b, m), 6, 1), Oracles: o}
+}
+
+// fxBases: the foreign-denomination / main-unit scenarios (host chain with a token module and an exchange-rate service).
+func fxBases(tier string) []base {
+	d, b, m := bump(tier, 8, 5, 2)
+	fxO := AlphaOpts{RespKinds: []string{"ok", "bad"}, CtxOps: []string{"pause", "start"}, Withdraw: []string{"O1:"},
+		BindOps: []Action{actUpdate("a", "P1", "O1", 0, "fcent150", 0), actUpdate("a", "P1", "O1", 0, "fusd1v", 0), actUpdate("a", "P1", "O1", 0, "p2", 0),
+			actUpdate("a", "P2", "O2", 0, "fkilo1h", 0), actUpdate("a", "P2", "O2", 0, "fyen", 0)}}
+	return []base{
+		{"fx-main", func() *Scenario {
+			return scFX(defaultParams(), "fusd1", []Template{tFxOne, tFxRep, tFxPoor}, fxO, fxSpec(), d, b, m)
+		}},
+		{"fx-rate-unavailable", func() *Scenario {
+			return scFX(paramSet("0.1", "0.001"), "fusd1v", []Template{tFxRep, tFxMix}, fxO, fxSpec(H0+2), d, b, m)
+		}},
+	}
 }
